@@ -66,6 +66,9 @@ def mutants(prog):
     from .common import source_sub
     DI, CI, G = "deepali.data.image", "deepali.core.image", "deepali.core.grid"
     specs = [
+        ('narrow: negative start not normalised', 'deepali.data.image', 'ImageBatch.narrow', 'start += self.shape[dim]', 'start += 0', 'T13.index-only'),
+        ('grid_resample: same number of samples taken for same grid', 'deepali.core.image', 'grid_resample', 'if output_grid == input_grid:', 'if output_grid.shape == input_grid.shape:', 'T13.resample'),
+        ('FlowField.batch drops the axes', 'deepali.data.flow', 'FlowField.batch', 'FlowFields(data, self._grid, self._axes)', 'FlowFields(data, self._grid)', 'T10x.single-field'),
         ("crop: grid pads", DI, "ImageBatch.crop", "grid.crop(margin=margin, num=num)", "grid.pad(margin=margin, num=num)", "T13."),
         ("pad: grid margin dropped", DI, "ImageBatch.pad", "grid.pad(margin=margin, num=num)", "grid.pad(num=num)", "T13."),
         ("center_crop: first grid for all", DI, "ImageBatch.center_crop", "grid.center_crop(size) for grid in self._grid", "self._grid[0].center_crop(size) for grid in self._grid", "T13."),
